@@ -5,17 +5,23 @@ from common import STRATEGIES, all_seeds, check_cache, check_global_seeds, fail,
 
 BOUND = ("networks with <= 6 variables (all 1-variable, a seeded sample of the 256 2-variable networks, seeded random 3-6 variable networks) plus "
          "hand-built networks with <= 10 variables (motif-avoidant core alone and composed with latches/switches/sources, the inputs of findings "
-         "D1-D12); strategies build, block, bfs, dfs, scc, attractor-seed expansion with default configuration on a fresh diagram")
+         "D1-D12); strategies build, block, bfs, dfs, scc, attractor-seed expansion with default configuration on a fresh diagram; seeds requested for every expanded node, optionally after requesting the candidates with the reduction options switched off")
 RULE = "non-trivial = the network has at least two attractors or a non-fixed-point attractor"
 CASE_TIMEOUT = 60.0
 COMPLETE = ["build", "block", "bfs", "dfs", "scc", "aseeds"]
+PRE = [[False, False], [True, False], [False, True]]  # (greedy_asp_minification, simulation_minification)
 
 
 def cases(seed, tier):
     nets = families.network_family(seed, tier, hand_max_vars=10)
+    k = 0
     for name, bnet in nets:
         for strat in COMPLETE:
-            yield {"net": name, "bnet": bnet, "strategy": strat}
+            yield {"net": name, "bnet": bnet, "strategy": strat, "pre": None}
+            # same, but the candidates of every expanded node are requested first with non-default reduction options
+            k += 1
+            for pre in (PRE if name.startswith("tc_") else [PRE[k % len(PRE)]]):
+                yield {"net": name, "bnet": bnet, "strategy": strat, "pre": pre}
 
 
 def check_with_info(case):
@@ -29,6 +35,9 @@ def check_with_info(case):
     if r is False:
         return [fail("complete_strategy_returned_false", "a complete strategy with default settings reports completion", case["strategy"])], info
     out = []
+    if case.get("pre"):
+        for i in sd.expanded_ids():
+            sd.node_attractor_candidates(i, compute=True, greedy_asp_minification=case["pre"][0], simulation_minification=case["pre"][1])
     triples = all_seeds(sd, net)
     for i in sd.expanded_ids():
         out += check_cache(sd, net, i, what=("seeds",))
